@@ -30,6 +30,7 @@ From Coq Require Import List NArith ZArith Bool.
 From ApiFu Require Import Base.Sexp Transport.EnvelopeModel Transport.EnvelopeSpec Transport.EnvelopeProofs.
 From ApiFu Require Import Transport.JsonText Transport.JsonTextProofs Transport.EnvelopeCompose.
 From ApiFu Require Import Transport.WireModel Transport.WireProofs Transport.InitModel Transport.InitProofs.
+From ApiFu Require Import Transport.StreamModel Transport.StreamProofs.
 From ApiFu Require Api.PersistedQueryModel.
 Import ListNotations.
 
@@ -339,6 +340,52 @@ Theorem C17_init_order_refuted_when_swapped :
     snd st' <> features_of false a (fst st').
 Proof. exact init_order_refuted_when_swapped. Qed.
 
+(** ** the body of an HTTP request as a stream (Transport/StreamModel.v).  [delivered f sent]: what the
+    handler can read when the client sends [sent] framed by [f] (Content-Length n / chunked with any
+    chunk sizes) and whether the stream ends before the announced length.
+    The framing does not matter as long as the bytes arrive: the same answer, the same calls *)
+Theorem C17_body_framing_irrelevant :
+  forall (Schema Features Ctx Doc Resp : Type) (no_features : Features)
+         (parse_validate : Schema -> Features -> Z * Z -> bytes -> bytes -> option gomap -> pv_result Doc Resp)
+         (execute : bool -> Schema -> exec_request Features Doc -> Z -> Resp)
+         (pq_ext : (request -> Resp * list (event Features Ctx Doc)) -> request -> Resp * list (event Features Ctx Doc))
+         (marshal : Resp -> option bytes) (parse : bytes -> jparse) (a : api Schema Features Ctx) c e,
+    (forall f, delivered f (e_body e) = (e_body e, false) ->
+       serve_graphql_wire no_features parse_validate execute pq_ext marshal parse a c e f =
+       serve_graphql no_features parse_validate execute pq_ext marshal fixed parse a c e) /\
+    (forall sizes, serve_graphql_wire no_features parse_validate execute pq_ext marshal parse a c e (Chunked sizes) =
+       serve_graphql no_features parse_validate execute pq_ext marshal fixed parse a c e).
+Proof.
+  exact (fun Schema Features Ctx Doc Resp nf pv ex pq m parse a c e =>
+           conj (serve_framing_irrelevant Schema Features Ctx Doc Resp nf pv ex pq m parse a c e)
+                (serve_chunked_same Schema Features Ctx Doc Resp nf pv ex pq m parse a c e)).
+Qed.
+
+(** a Content-Length smaller than what is sent: the request is the one of the prefix; a POST body (either
+    media type) that ends before the announced length: 400, and no call into the pipeline *)
+Theorem C17_short_length_is_prefix : forall parse ig qk e n,
+  (n <= length (e_body e))%nat ->
+  new_request_from_wire ig qk parse e (ContentLength n) = new_request_from_http qk parse (with_body e (firstn n (e_body e))).
+Proof. exact short_length_is_prefix. Qed.
+
+Theorem C17_early_body_refused :
+  forall (Schema Features Ctx Doc Resp : Type) (no_features : Features)
+         (parse_validate : Schema -> Features -> Z * Z -> bytes -> bytes -> option gomap -> pv_result Doc Resp)
+         (execute : bool -> Schema -> exec_request Features Doc -> Z -> Resp)
+         (pq_ext : (request -> Resp * list (event Features Ctx Doc)) -> request -> Resp * list (event Features Ctx Doc))
+         (marshal : Resp -> option bytes) (parse : bytes -> jparse) (a : api Schema Features Ctx) c e n,
+    (length (e_body e) < n)%nat -> e_method e = m_post -> (e_media e = mt_json \/ e_media e = mt_graphql) ->
+    serve_graphql_wire no_features parse_validate execute pq_ext marshal parse a c e (ContentLength n) = (HttpError 400, []).
+Proof. exact serve_early_end_refused. Qed.
+
+(** the fourth repaired defect: application/graphql ignored the read error *)
+Theorem C17_graphql_read_error_refuted_before_fix :
+  exists (e : envelope) n r,
+    (length (e_body e) < n)%nat /\ e_method e = m_post /\ e_media e = mt_graphql /\
+    new_request_from_wire true fixed (fun _ => PBad) e (ContentLength n) = Accept r /\
+    new_request_from_wire false fixed (fun _ => PBad) e (ContentLength n) = Reject 400.
+Proof. exact graphql_read_error_refuted_before_fix. Qed.
+
 (** the framing functions are injective on response bytes: answers that are equal on the wire carry
     the same response(s); so "same wire answer modulo framing" determines the response *)
 Theorem C17_framing_injective :
@@ -430,6 +477,10 @@ Print Assumptions C17_transport_same_wire_answer.
 Print Assumptions C17_ws_effective_features.
 Print Assumptions C17_ws_session_is_handle_init.
 Print Assumptions C17_init_order_refuted_when_swapped.
+Print Assumptions C17_body_framing_irrelevant.
+Print Assumptions C17_short_length_is_prefix.
+Print Assumptions C17_early_body_refused.
+Print Assumptions C17_graphql_read_error_refuted_before_fix.
 Print Assumptions C17_framing_injective.
 Print Assumptions C17_wire_is_framing_of_response.
 Print Assumptions C17_malformed_http_wire.
